@@ -1247,6 +1247,14 @@ func (w *World) typedOK(id Ident) bool {
 	if id.T == TVoid || (w.M != nil && id.Group == "" && w.M.NilOutput(id)) {
 		return false
 	}
+	if w.M != nil && id.Group != "" {
+		// a group with a member that is always nil: the typed helper refuses the nil element
+		for _, ow := range w.M.Members(id.T, id.Group) {
+			if r := w.M.Regs[ow.Reg]; r != nil && ow.Out < len(r.Outs) && r.Outs[ow.Out].Nil {
+				return false
+			}
+		}
+	}
 	w.mu.Lock()
 	defer w.mu.Unlock()
 	for _, f := range w.Faults {
